@@ -984,8 +984,11 @@ pub fn run(cfg: &Cfg, prop: &str) {
             "C13" | "C08" => r.below(2),
             _ => r.below(2),
         };
-        let allow_insp = matches!(prop, "C08") || r.chance(1, 4);
-        let mut g = Gen { r: &mut r, pool: &pool, insp_counter, force_delegate: prop == "C15" || ((prop == "C06" || prop == "C08" || prop == "C13") && i % 3 == 0), multi_party: (prop == "C07" && i % 3 != 0) || (prop == "C13" && i % 3 == 1), co_delegate: prop == "C15" && i % 3 == 0, now: base_now(), reuse_keys: vec![] };
+        // (every sixth C13 / C08 scenario: several delegated steps whose sub-layouts all carry inspections,
+        // some of them with rules about the link files that a sibling's inspection leaves behind)
+        let siblings = (prop == "C13" || prop == "C08") && i % 6 == 0;
+        let allow_insp = matches!(prop, "C08") || siblings || r.chance(1, 4);
+        let mut g = Gen { r: &mut r, pool: &pool, insp_counter, force_delegate: prop == "C15" || ((prop == "C06" || prop == "C08" || prop == "C13") && i % 3 == 0), multi_party: (prop == "C07" && i % 3 != 0) || (prop == "C13" && i % 3 == 1), co_delegate: prop == "C15" && i % 3 == 0, now: base_now(), reuse_keys: vec![], inner_insp_always: siblings };
         let mut s = g.valid(depth, allow_insp);
         insp_counter = g.insp_counter;
         if prop == "C08" {
@@ -999,6 +1002,10 @@ pub fn run(cfg: &Cfg, prop: &str) {
             }
         }
         // (how often a sub-layout's directory holds a link file named like one of the enclosing directory)
+        if siblings {
+            let n = s.dir.files.iter().filter(|f| matches!(&f.1, SFile::Block(SBlock { meta: SMeta::Layout(l), .. }) if !l.inspect.is_empty())).count();
+            sink.stat(&format!("scenario/sub-layouts-with-inspections={}", n.min(3)));
+        }
         if s.dir.subs.iter().any(|(_, sd)| sd.files.iter().any(|f| s.dir.files.iter().any(|g| g.0 == f.0))) {
             sink.stat("scenario/nested-namesake");
         }
